@@ -13,6 +13,9 @@ import (
 
 // WatchFileForUpdates performs an action every time a file on disk is updated
 func WatchFileForUpdates(filename string, done <-chan bool, action func()) error {
+	if handled, err := verifWatch(filename, done, action); handled {
+		return err
+	}
 	filename = filepath.Clean(filename)
 	watcher, err := fsnotify.NewWatcher()
 	if err != nil {
